@@ -21,11 +21,12 @@ namespace PyYetiVerif.C13
 open PyYetiVerif.Bulk PyYetiVerif.Generated.BulkFormats
 
 /-- the layout side conditions, decidable, over the generated tables -/
-def FormatsOK : Prop :=
+def FormatsOKa : Prop :=
   -- DMIG: header = nine 8-column fields = 72 columns; column card 8 + 3·16; row line 8 + 2·16 + value(s)
   dmigHeader.map (lineWidth 0) = [72] ∧ dmigHeader.map fieldCount = [9] ∧
   dmigColCard.map (lineWidth 0) = [56] ∧ dmigRowLine.map (lineWidth 0) = [40] ∧
-  dmigReal = [[.fld ' ' 16 9 'E']] ∧ dmigComplex = [[.fld ' ' 16 9 'E', .fld ' ' 16 9 'E']] ∧
+  -- the value field: `{:16.9E}`, with the fallback `{:16.8E}` when the text is longer than the 16-column field
+  dmigField = [[.fld ' ' 16 9 'E']] ∧ dmigFieldFallback = [[.fld ' ' 16 8 'E']] ∧ dmigFieldWidth = 16 ∧
   dmigSymForm = 6 ∧ dmigFormSymW = dmigSymForm ∧ dmigFormSingle = 9 ∧ dmigFormRect = 2 ∧ dmigFormSquare = 1 ∧
   -- wtnasints: 8-column integers, 8 per continuation line behind an 8-column lead: 72 columns
   nasintsField = [[.fld ' ' 8 0 'd']] ∧ nasintsLead = [[.fld ' ' 8 0 's']] ∧
@@ -33,7 +34,10 @@ def FormatsOK : Prop :=
   -- the callers: start field = 1 + fields already on the line (the name counts as one)
   csuperPrefix.map (lineWidth 0) = [8 * (csuperStart - 1)] ∧ extrnPrefix.map (lineWidth 0) = [8 * (extrnStart - 1)] ∧
   -- _wt_with_thru: a card is flushed at name + 8 fields
-  thruFlush = 9 ∧ setMaxLength = 72 ∧
+  thruFlush = 9 ∧ setMaxLength = 72
+
+/-- … second half: GRID, TABLED1, CORD2x templates and the reader's constants -/
+def FormatsOKb : Prop :=
   -- GRID: 16-wide two lines (72, 40 / 72), 8-wide one line (56 / 72)
   gridWideShort.map (lineWidth 16) = [72, 40] ∧ gridWideLong.map (lineWidth 16) = [72, 72] ∧
   gridSmallShort.map (lineWidth 8) = [56] ∧ gridSmallLong.map (lineWidth 8) = [72] ∧
@@ -52,6 +56,10 @@ def FormatsOK : Prop :=
   Mode.f8.inc = rdSmallInc ∧ Mode.f16.inc = rdWideInc ∧ Mode.comma.inc = rdCommaInc ∧
   Mode.f8.conchar = conSmall.toList ∧ Mode.f16.conchar = conWide.toList ∧ Mode.comma.conchar = conComma.toList
 
+instance : Decidable FormatsOKa := by unfold FormatsOKa; infer_instance
+instance : Decidable FormatsOKb := by unfold FormatsOKb; infer_instance
+
+def FormatsOK : Prop := FormatsOKa ∧ FormatsOKb
 instance : Decidable FormatsOK := by unfold FormatsOK; infer_instance
 
 /-- the side conditions hold for the tables extracted from the source as it is now -/
